@@ -132,6 +132,12 @@ FULL_IN_QUICK = {'C01', 'C02', 'C03', 'C04', 'C05', 'C06', 'C07', 'C08', 'C09', 
 FULL_NOTE = (' Tiers: the full cell set of this property takes seconds, so the quick command runs the same cells as the thorough one (where the text above names a '
              'reduced "quick" cell set, that reduction is no longer applied); only C12, C13, C16 and C20 have a reduced quick tier.')
 
+HEAVY_NOTE = {
+    'C12': ' Quick cell set as built: all 18 scales x 35 bit lengths (every 7th and the boundaries 1-3, 23-26, 52-56, 63-65, 126, 127) x both signs x both float types (2572 cells); thorough: all 127 bit lengths.',
+    'C13': ' Quick cell set as built: every 5th (f64) / 3rd (f32) exponent field plus the boundary fields, both signs (1066 cells); thorough: every exponent field.',
+    'C16': ' Quick cell set as built: 34 normalisation shifts of Knuth D (every 5th and the boundaries), boundary shifts of the wrappers; thorough: all 128 / all 39.',
+}
+
 PENDING = 'check under construction in this session (design in DESIGN.md section 5); not claimed until its ./check command exists'
 
 
@@ -150,7 +156,7 @@ def main():
             'replay_cmd_template': './check %s --replay {path}' % pid,
             'engine': 'fpsa',
             'level_claimed': {'category': c['category'], 'text': c['text'], 'design_ref': c['design_ref']},
-            'level_note': c['note'] + (FULL_NOTE if pid in FULL_IN_QUICK else ''),
+            'level_note': c['note'] + (FULL_NOTE if pid in FULL_IN_QUICK else HEAVY_NOTE.get(pid, '')),
             'technique': c['technique'],
         })
     na = []
